@@ -124,3 +124,7 @@ void harness_history(void) { U32 r1, r2, r3; long long p0, p1, p2; U64 off = nd6
     r3 = wasi_snapshot_preview1__fd_tell(0, the_wfd, res_ptr);
     if (r2 == 0 && r3 == 0) V_ASSERT((long long)gle(res_ptr, 8) == p1, "tell after write+pwrite reports the position after write");
     V_WITNESS("end"); }
+
+/* errno translation table: every host errno with a WASI counterpart is translated to that code */
+void harness_errno(void) { int k = nd8() % N_FS_ERRNOS; int e = fs_errnos[k]; U16 r; errno = e; r = wasiErrno();
+    V_ASSERT((int)r == spec_errno(e), "host errno is translated to the WASI errno of the same name"); V_WITNESS("end"); }
